@@ -654,7 +654,9 @@ Record case := mkCase {
   i_accts : amap;
   i_txs : list tx;
   e_txs : list txobs;
-  e_logs : list log           (* all logs of the block, oldest first *)
+  e_logs : list log;          (* all logs of the block, oldest first *)
+  e_final : list obs          (* the same addresses read from a fresh StateDB opened on the roots committed after the
+                                 last transaction's Finalise (on a copy of the state, flushed to disk) *)
 }.
 
 Definition model_fuel : nat := N.to_nat 40000.
@@ -702,7 +704,14 @@ Fixpoint check_block (G : gastab) (P : prog) (txs : list tx) (exp : list txobs) 
 
 Definition case_ok (G : gastab) (c : case) : bool :=
   match check_block G (i_prog c) (i_txs c) (e_txs c) (mkSt (i_accts c) [] 0 [] []) with
-  | Some s => list_eqb log_eqb (rev (logs s)) (e_logs c)
+  | Some s =>
+    list_eqb log_eqb (rev (logs s)) (e_logs c)
+    && match i_txs c with
+       | [] => true
+       | _ => let f := finalise s in
+              forallb (obs_ok f) (e_final c)
+              && forallb (fun p => existsb (fun o => addr_eqb (fst p) (o_addr o) && o_exists o) (e_final c)) (accts f)
+       end
   | None => false
   end.
 
